@@ -27,41 +27,6 @@ theorem run_err (s : St) (cs : List Char) (h : s.err = true) : run s cs = (s, []
   | nil => rfl
   | cons c cs ih => simp [run_cons, step_err s c h, ih]
 
-/-! ### unquoted context -/
-
-/-- Characters that are inert inside an unquoted word. -/
-def wordChar (c : Char) : Bool := !(isWs c || c == ';' || c == '{' || c == '\\')
-
-theorem step_word (s : St) (c : Char) (hm : s.mode = .word) (he : s.esc = false) (hr : s.err = false)
-    (hc : wordChar c = true) : step s c = ({ s with var := (c == '$') }, []) := by
-  simp only [wordChar, Bool.not_eq_true', Bool.or_eq_false_iff] at hc
-  obtain ⟨⟨⟨h1, h2⟩, h3⟩, h4⟩ := hc
-  unfold step
-  simp only [hm, he, hr, h1, h2, h3, h4]
-  by_cases hd : c = '$'
-  · subst hd; simp
-  · simp [hd]
-
-/-- `var` after a non-empty inert word: set iff the last character is `$`. -/
-def endsDollar : List Char → Bool
-  | [] => false
-  | [c] => c == '$'
-  | _ :: cs => endsDollar cs
-
-theorem run_word (s : St) (cs : List Char) (hm : s.mode = .word) (he : s.esc = false) (hr : s.err = false)
-    (hc : cs.all wordChar = true) (hne : cs ≠ []) :
-    run s cs = ({ s with var := endsDollar cs }, []) := by
-  induction cs generalizing s with
-  | nil => exact absurd rfl hne
-  | cons c cs ih =>
-    simp only [List.all_cons, Bool.and_eq_true] at hc
-    rw [run_cons, step_word s c hm he hr hc.1]
-    cases cs with
-    | nil => simp [run_nil, endsDollar]
-    | cons d ds =>
-      have := ih { s with var := (c == '$') } hm he hr hc.2 (by simp)
-      simp [this, endsDollar]
-
 /-! ### quoted contexts -/
 
 /-- The language `([^q\\]|\\.)*` with `.` = any character, as an automaton with an escape flag: every
@@ -198,21 +163,91 @@ theorem reach_between (pre : List Char) : Between (run init pre).1 :=
 
 /-! ### classes of inert values -/
 
-/-- Inert inside an unquoted word: no whitespace, `;`, `{`, backslash; does not end in `$` (a following `{` of
-the template would become part of a `${` variable). -/
-def WordSafe (v : List Char) : Prop := v ≠ [] ∧ v.all wordChar = true ∧ endsDollar v = false
+/-- What a string does when it is read inside an unquoted word whose `var` flag is `var`: `none` if it contains a
+character that ends the word or starts an escape, `some b` if it is inert and leaves `var = b`.  `{` is inert exactly
+after `$` (NGINX's `${name}` syntax). -/
+def wordGo (var : Bool) : List Char → Option Bool
+  | [] => some var
+  | c :: cs =>
+    if c == '{' && var then wordGo true cs
+    else if c == '\\' then none
+    else if c == '$' then wordGo true cs
+    else if isWs c || c == ';' || c == '{' then none
+    else wordGo false cs
 
-/-- May start a token: additionally the first character does not open a quote, a comment, or close a block. -/
-def startChar (c : Char) : Bool := wordChar c && !(c == '"' || c == '\'' || c == '#' || c == '}')
+theorem run_wordGo (v : List Char) : ∀ (s : St) (b : Bool), s.mode = .word → s.esc = false → s.err = false →
+    wordGo s.var v = some b → run s v = ({ s with var := b }, []) := by
+  induction v with
+  | nil =>
+    intro s b _ _ _ h
+    simp only [wordGo, Option.some.injEq] at h
+    subst h; rfl
+  | cons c cs ih =>
+    intro s b hm he hr h
+    rw [run_cons]
+    unfold wordGo at h
+    by_cases h1 : (c == '{' && s.var) = true
+    · simp only [h1, if_true] at h
+      have hs : step s c = (s, []) := by unfold step; simp [hm, he, hr, h1]
+      have hv : s.var = true := by simp at h1; exact h1.2
+      rw [hs]
+      have := ih s b hm he hr (by rw [hv]; exact h)
+      simp [this]
+    · simp only [h1, Bool.false_eq_true, if_false] at h
+      by_cases h2 : (c == '\\') = true
+      · simp [h2] at h
+      · simp only [h2, Bool.false_eq_true, if_false] at h
+        by_cases h3 : (c == '$') = true
+        · simp only [h3, if_true] at h
+          have hs : step s c = ({ s with var := true }, []) := by unfold step; simp [hm, he, hr, h1, h2, h3]
+          rw [hs]
+          have := ih { s with var := true } b hm he hr h
+          simp [this]
+        · simp only [h3, Bool.false_eq_true, if_false] at h
+          by_cases h4 : (isWs c || c == ';' || c == '{') = true
+          · simp [h4] at h
+          · simp only [h4, Bool.false_eq_true, if_false] at h
+            simp only [Bool.or_eq_true, not_or, Bool.not_eq_true] at h4
+            obtain ⟨⟨h4a, h4b⟩, h4c⟩ := h4
+            have hs : step s c = ({ s with var := false }, []) := by
+              unfold step; simp [hm, he, hr, h2, h3, h4a, h4b, h4c]
+            rw [hs]
+            have := ih { s with var := false } b hm he hr h
+            simp [this]
+
+/-- `var` at the start only matters for a leading `{`. -/
+theorem wordGo_var (v : List Char) (hv : v.head? ≠ some '{') (a : Bool) :
+    v ≠ [] → wordGo a v = wordGo false v := by
+  cases v with
+  | nil => intro h; exact absurd rfl h
+  | cons c cs =>
+    intro _
+    have hc : (c == '{') = false := by
+      simp only [List.head?_cons, ne_eq, Option.some.injEq] at hv
+      simpa using hv
+    simp [wordGo, hc]
+
+/-- Inert inside an unquoted word and leaving no `$` pending: whatever follows is read as it would be otherwise. -/
+def WordSafe (v : List Char) : Prop := v ≠ [] ∧ v.head? ≠ some '{' ∧ wordGo false v = some false
+
+/-- Inert inside an unquoted word; may end in `$`, so what follows must not start with `{`. -/
+def WordBody (v : List Char) : Prop := v ≠ [] ∧ v.head? ≠ some '{' ∧ (wordGo false v).isSome = true
+
+/-- May start a token: the first character is none of whitespace `;` `{` `}` `"` `'` `#` backslash. -/
+def startChar (c : Char) : Bool :=
+  !(isWs c || c == ';' || c == '{' || c == '\\' || c == '"' || c == '\'' || c == '#' || c == '}')
 
 def TokenSafe (v : List Char) : Prop :=
-  ∃ c cs, v = c :: cs ∧ startChar c = true ∧ cs.all wordChar = true ∧ endsDollar v = false
+  ∃ c cs, v = c :: cs ∧ startChar c = true ∧ wordGo false v = some false
+
+def TokenBody (v : List Char) : Prop :=
+  ∃ c cs, v = c :: cs ∧ startChar c = true ∧ (wordGo false v).isSome = true
 
 /-- Inert inside a token quoted by `q` (`"` or `'`). -/
 def QuoteSafe (q : Char) (v : List Char) : Prop := qGo q false v = true
 
 instance (v : List Char) : Decidable (WordSafe v) := by unfold WordSafe; exact inferInstance
+instance (v : List Char) : Decidable (WordBody v) := by unfold WordBody; exact inferInstance
 instance (q : Char) (v : List Char) : Decidable (QuoteSafe q v) := by unfold QuoteSafe; exact inferInstance
-
 
 end Nic.NgxLex
